@@ -46,7 +46,40 @@ def KNOWN_D1(sub, case, failure):
     return bool(failure.data.get('fusion_only') is True)
 
 
-KNOWN_MATCH = {'D1': KNOWN_D1}
+def KNOWN_D18(sub, case, failure):
+    """D18: second derivatives of the symmetric tensor functions (sqrt/exp/log/pow_symm) are wrong when their argument has
+    (nearly) repeated eigenvalues - the JVP rule is itself differentiated through the eigenvectors, error ~ulp/gap (pow: worse).
+    Affects the tangent (never the stress) of every model built on them, also op-by-op."""
+    d = failure.data
+    return bool(failure.clause in ('tangent', 'tangent-action') and d.get('fusion_only') is False and
+                d.get('uses_tensor_functions') and d.get('relgap') is not None and d['relgap'] < 1e-4)
+
+
+KNOWN_MATCH = {'D1': KNOWN_D1, 'D18': KNOWN_D18}
+
+
+def tensor_function_gap(cfg, He, state):
+    """Smallest relative eigenvalue gap among the tensors the model feeds to log/pow/sqrt_symm at (He, state); None if none."""
+    F = He + onp.eye(3)
+    ts = []
+    if cfg.family == 'j2' and cfg.options['kinematics'] == 'large deformations':
+        Fe = F @ onp.linalg.inv(onp.asarray(state[1:10]).reshape(3, 3))
+        ts.append(Fe.T @ Fe)
+    elif cfg.family == 'j2' and cfg.options['kinematics'] == 'seth hill':
+        ts.append(F.T @ F)
+    elif cfg.family in ('visco1', 'visco3'):
+        for i in range(1 if cfg.family == 'visco1' else 3):
+            Fe = F @ onp.linalg.inv(onp.asarray(state[9 * i:9 * i + 9]).reshape(3, 3))
+            ts.append(Fe.T @ Fe)
+    elif cfg.name in ('linear-elastic/logarithmic', 'pf-threshold/large'):
+        ts.append(F.T @ F)
+    if not ts:
+        return None
+    g = []
+    for C_ in ts:
+        w = onp.linalg.eigvalsh(0.5 * (C_ + C_.T))
+        g.append(min(w[1] - w[0], w[2] - w[1]) / w[2])
+    return float(min(g))
 
 
 def make_cases(names):
@@ -190,8 +223,11 @@ def check(case):
             oe = [onp.asarray(o) for o in C['rawpoint'](np.array(He), np.array(state), dt, pv, np.array(dH))]
         e1, e2, eC = float(onp.sum(oe[1] * dH)), float(onp.sum(oe[2] * dH)), oe[2]
         ok = {'stress': abs(e1 - fd1[1]) <= tol1, 'tangent': abs(e2 - fd2[1]) <= tol2, 'tangent-action': onp.abs(eC - fdg[1]).max() <= tol2}
+        gap = tensor_function_gap(cfg, He, state)
         for f in local:
             f.data['fusion_only'] = bool(ok[f.clause])
+            f.data['uses_tensor_functions'] = gap is not None
+            f.data['relgap'] = gap
         fails += local
     classes = [case['model'], 'yielding' if yielding else 'not-yielding', 'hist%d' % len(case['hist']), 'dkind%d' % min(case['dkind'], 3)]
     nt = bool(yielding or (cfg.family.startswith('visco') and len(case['hist']) > 0) or (cfg.finite and onp.linalg.norm(He) > 1e-4))
